@@ -499,6 +499,11 @@ func (b *Reader) WriteTo(w io.Writer) (n int64, err error) {
 
 		if m > 0 {
 			b.TotalRead += int(m)
+			if b.r == b.w {
+				// these bytes went past the buffer: what it still holds is older than
+				// the last byte consumed and must not be re-exposed by UnreadByte
+				b.r, b.w = 0, 0
+			}
 		}
 
 		n += m
